@@ -14,7 +14,7 @@ ASSUMPTIONS = [
     'completes a solver-chosen pending task (one per call; or two at once in the wait2 variants) - every order in which outstanding requests can '
     'be answered; the server side (handler.read/write, file objects) is a model returning a solver-chosen short count of a concrete source',
     'source content is concrete distinct bytes so that misplaced data is visible; sizes, offsets, block size, max_requests are small (sharded)',
-    'local-file glue of get/put (opening local files, glob, mkdir) is outside: the check drives the parallel reader/writer/copier and SFTPClientFile',
+    'local-file glue of get/put (opening local files, glob) is outside: the check drives the parallel reader/writer/copier, SFTPClientFile and the recursive copy driver SFTPClient._copy on an in-memory model file system (directories, files, symlinks)',
 ]
 
 SRC = bytes(range(65, 65 + 16))
@@ -271,6 +271,166 @@ def copier(total: int, flen: int, bs: int, mr: int, two: bool,
     return buf == SRC[:total] and all(m == 1 for m in mark)
 
 
+class TreeFS:
+    """In-memory file system seen through the _SFTPFSProtocol the copy driver uses.
+    nodes: path -> ('dir',) | ('file', content) | ('link', target)"""
+
+    def __init__(self, nodes, shorts=()):
+        self.nodes = dict(nodes)
+        self.writes = {}
+        self.shorts = list(shorts)
+        self.si = 0
+        self.limits = S.SFTPLimits(0, 1 << 20, 1 << 20, 0)
+
+    def _resolve(self, path, depth=0):
+        node = self.nodes.get(path)
+        if node is not None and node[0] == 'link' and depth < 4:
+            t = node[1]
+            if not t.startswith(b'/'):
+                t = path.rsplit(b'/', 1)[0] + b'/' + t
+            return self._resolve(t, depth + 1)
+        return node
+
+    def _attrs(self, node):
+        if node is None:
+            raise S.SFTPNoSuchFile('no such file')
+        if node[0] == 'dir':
+            return S.SFTPAttrs(type=S.FILEXFER_TYPE_DIRECTORY, size=64, permissions=0o755)
+        if node[0] == 'link':
+            return S.SFTPAttrs(type=S.FILEXFER_TYPE_SYMLINK, size=len(node[1]), permissions=0o777)
+        return S.SFTPAttrs(type=S.FILEXFER_TYPE_REGULAR, size=len(node[1]), permissions=0o644)
+
+    async def stat(self, path, *, follow_symlinks=True):
+        return self._attrs(self._resolve(path) if follow_symlinks else self.nodes.get(path))
+
+    async def lstat(self, path):
+        return self._attrs(self.nodes.get(path))
+
+    async def isdir(self, path):
+        n = self._resolve(path)
+        return n is not None and n[0] == 'dir'
+
+    async def mkdir(self, path, *a):
+        self.nodes[path] = ('dir',)
+
+    async def readlink(self, path):
+        return self.nodes[path][1]
+
+    async def symlink(self, target, path):
+        self.nodes[path] = ('link', target)
+
+    async def setstat(self, path, attrs, **k):
+        pass
+
+    async def scandir(self, path):
+        for p in sorted(self.nodes):
+            if p.startswith(path + b'/') and b'/' not in p[len(path) + 1:]:
+                yield S.SFTPName(p[len(path) + 1:], attrs=self._attrs(self.nodes[p]))
+
+    async def open(self, path, mode, block_size=0):
+        fs = self
+
+        class F:
+            async def read(self, size, offset):
+                node = fs._resolve(path)
+                if node is None or node[0] != 'file':
+                    raise S.SFTPFailure('not a file')
+                n = fs.shorts[fs.si] if fs.si < len(fs.shorts) else size
+                fs.si += 1
+                return node[1][offset:offset + min(size, n)]
+
+            async def write(self, data, offset):
+                fs.writes.setdefault(path, []).append((offset, bytes(data)))
+                return len(data)
+
+            async def close(self):
+                pass
+
+        if 'r' in mode:
+            node = self._resolve(path)
+            if node is None or node[0] != 'file':
+                raise S.SFTPNoSuchFile('no such file')
+        else:
+            self.writes.setdefault(path, [])
+        return F()
+
+
+TARGETS = [b'f', b'/s/f', b'sub/g', b'nowhere']
+
+
+def copy_tree(nf: int, ng: int, ti: int, follow: bool, top: int, bs: int, mr: int, two: bool, preserve: bool,
+              c0: int, c1: int, c2: int, s0: int, s1: int, s2: int) -> bool:
+    """The recursive copy driver behind get/put/copy on a model tree
+    /s = {f: file, l: symlink, sub/: {g: file}}: every regular file, and with
+    follow_symlinks every link to a regular file, arrives with exactly the bytes
+    of the file it names; without follow_symlinks links are recreated with their
+    target; a dangling link is an error, never a silently wrong file."""
+    f, g = SRC[:nf], SRC[8:8 + ng]
+    target = pick(TARGETS, ti)
+    nodes = {b'/s': ('dir',), b'/s/f': ('file', f), b'/s/l': ('link', target), b'/s/sub': ('dir',), b'/s/sub/g': ('file', g)}
+    src = TreeFS(nodes, [s0, s1, s2])
+    dst = TreeFS({})
+    cl = S.SFTPClient.__new__(S.SFTPClient)
+
+    class H:
+        version = 3
+        logger = NullLogger()
+        supports_copy_data = False
+
+    cl._handler = H()
+    cl._path_encoding = None
+    cl._path_errors = 'strict'
+    cl._cwd = None
+    sh = Shim([c0, c1, c2], two)
+    saved = S.asyncio
+    S.asyncio = sh
+    spath = pick([b'/s', b'/s/l', b'/s/f'], top)
+    try:
+        # the attributes the public entry points pass in come from lstat (glob / scandir) or stat (a directly named path)
+        r = drive(cl._copy(src, dst, spath, b'/d', src._attrs(src.nodes[spath]), preserve, True, follow, False, bs, mr, None, None, False))
+    finally:
+        S.asyncio = saved
+    real = src._resolve(b'/s/l')
+
+    def content(path):
+        w = dst.writes.get(path)
+        if w is None:
+            return None
+        size = max([o + len(d) for o, d in w] + [0])
+        buf, mark = _apply(w, size)
+        if buf is None or not all(m == 1 for m in mark):
+            return b'<holes or double writes>'
+        return buf
+
+    def link_ok(dpath):
+        """what must be at dpath for the source entry /s/l"""
+        if not follow:
+            return dst.nodes.get(dpath) == ('link', target) and dpath not in dst.writes
+        if real is None:
+            return False                       # dangling: must have failed
+        if real[0] == 'file':
+            return content(dpath) == real[1]
+        return True
+
+    if spath == b'/s/f':
+        return r[0] == 'ret' and content(b'/d') == f
+    if spath == b'/s/l':
+        if follow and real is None:
+            return r[0] == 'err'
+        if follow and real[0] == 'dir':
+            return r[0] == 'ret'
+        return r[0] == 'ret' and link_ok(b'/d')
+    if follow and real is None:
+        return r[0] == 'err'
+    if r[0] != 'ret':
+        return False
+    if content(b'/d/f') != f or content(b'/d/sub/g') != g:
+        return False
+    if dst.nodes.get(b'/d') != ('dir',) or dst.nodes.get(b'/d/sub') != ('dir',):
+        return False
+    return link_ok(b'/d/l')
+
+
 RANGES = [[], [(0, 6)], [(0, 2), (4, 2)], [(1, 3)], [(0, 1), (2, 1), (5, 1)], [(3, 3)]]
 
 
@@ -390,6 +550,15 @@ OBLIGATIONS = [
        timeout=150, thorough_timeout=400,
        functions=[S._SFTPFileCopier.run_task, S._SFTPFileCopier.run, S._SFTPParallelIO.iter],
        bounds='announced size {0,4,5} (thorough 0..7) vs real source length {3,5,8}; block size 1..3, max_requests 1..3; any completion order and short reads; non-sparse (sparse layouts: sparse_copy)'),
+    Ob('copy_tree', copy_tree,
+       sym=dict(nf=R(0, 5), ng=R(0, 3), ti=R(0, 3), follow=B, top=R(0, 2), two=B, preserve=B,
+                c0=R(0, 1), c1=R(0, 1), c2=R(0, 1), s0=R(1, 3), s1=R(1, 3), s2=R(1, 3)),
+       shards=dict(ti=[0, 1, 2, 3], follow=[False, True], top=[0, 1, 2], bs=[2], mr=[2]),
+       thorough_shards=dict(ti=[0, 1, 2, 3], follow=[False, True], top=[0, 1, 2], bs=[1, 2, 3], mr=[1, 3]),
+       pre=['s2 == 1 and c2 == 0'], timeout=250, thorough_timeout=600,
+       functions=[S.SFTPClient._copy, S._SFTPFileCopier.run, S._SFTPFileCopier.run_task, S._SFTPParallelIO.iter],
+       bounds='model tree /s={f (0..5 bytes), l -> {f, /s/f, sub/g, dangling}, sub/{g (0..3 bytes)}}; copy of the tree, of the link or of the file; '
+              'follow_symlinks on/off, preserve on/off; block size 2 (thorough 1..3), max_requests 2 (1,3); completion order and short reads as in copier'),
     Ob('sparse_copy', sparse_copy, sym=dict(ri=R(0, 5), two=B, **_C, **_S),
        shards=dict(bs=[1, 2], mr=[1, 3]), thorough_shards=dict(bs=[1, 2, 3], mr=[1, 2, 3], ri=[0, 1, 2, 3, 4, 5]),
        pre=['s4 == 1 and s5 == 1 and c5 == 0'], timeout=250, thorough_timeout=600,
